@@ -231,6 +231,11 @@ def r5_escapes(chk, prog):
                     allowed_edges.append((sw.idx, d, v))
         # reachable only via Quote/ReverseSolidus edges of some switch, and not via any other variant edge
         p = ctx.cfg.witness_path(bsl, allowed_edges)
+        if p is not None:
+            # `if matches!(char_escape, Quote | ReverseSolidus)`
+            g = matches_guard(ctx, allowed_edges)
+            if g:
+                p = ctx.cfg.witness_path(bsl, g)
         ok = bool(allowed_edges) and p is None
     chk.require(ok, "R5", f, "backslash-only-for-quote-and-backslash",
                 "the escaping backslash is written for other classes than '\"' and '\\\\' (or not at all)")
